@@ -18,6 +18,23 @@
 //   C07.single_point    the result around a 1-point path is consistent neither with the disc nor with the axis-parallel
 //                       square of radius |delta| (within t)
 //   C07.error_code      ClipperOffset::ErrorCode() != 0 on a valid input
+//
+// Classifier tags (narrow predicates over the witness, for known findings)
+//   point_square_delta_ge_2^31              the violated path is a single point, join type not Round, ceil(|delta|) >= 2^31
+//                                           (DoGroupOffset builds that square from `int d = (int)std::ceil(abs_delta)`)
+//   isolated_not_reproduced_on_finer_grid   the same demand at the same point is met when the scene is centred and given on
+//                                           a 1024x and a 257x finer grid (see finer_grid_tag): rounding coincidence of the
+//                                           raw offset outlines that the clean-up union mis-fills; reproduced_on_finer_grid
+//                                           otherwise (every scale-invariant defect of caps, joins, width, reach)
+//   two_point_path_earlier_in_joined_group  classifier of the end_type_ defect fixed in /repo (must not occur any more)
+//
+// Notes on the oracle (bring-up)
+//   * a 1-point path may come out as the disc or as the square: the property allows both, so the monitor demands the
+//     intersection/union of the two and that one of the two shapes is consistent with all samples of the point.
+//   * a 2-point path in a Joined group has two full-reversal joins; only its own rectangle (Round join: the stadium) is
+//     demanded, and nothing beyond max(join factor, sqrt2)|delta| from its ends.
+//   * the sample stream is seeded from the inputs and the configuration only and the failing point is stored in the
+//     witness (qx, qy), so a witness replays at the very point it failed at.
 #include "region.h"
 #include "gen.h"
 #include "c07_stroke.h"
@@ -222,6 +239,28 @@ static std::string finer_grid_tag(const Paths64& P, double delta_d, int jt, int 
   return decisive == 2 ? "isolated_not_reproduced_on_finer_grid" : "finer_grid_not_decisive";
 }
 
+// The same classifier for the two comparison claims: does the coverage of the scaled point still differ between the two
+// calls (paths A vs paths B) on the finer grid?
+static std::string finer_grid_pair_tag(const Paths64& A, const Paths64& B, double delta_d, int jt, int et, double ml, double at, int api, const Point64& q) {
+  int64_t x0 = 0, y0 = 0, x1 = 0, y1 = 0; bool any = false; bounds(A, x0, y0, x1, y1, any);
+  const int64_t cx = x0 / 2 + x1 / 2, cy = y0 / 2 + y1 / 2;
+  Paths64 Ac = A, Bc = B; gen::translate(Ac, -cx, -cy); gen::translate(Bc, -cx, -cy);
+  const Point64 qc(q.x - cx, q.y - cy);
+  const ld M = std::max<ld>({ (ld)max_abs_coord(Ac), (ld)max_abs_coord(Bc), fabsl((ld)qc.x), fabsl((ld)qc.y), fabsl((ld)delta_d) * 8 });
+  int64_t smax = 1024;
+  while (smax > 1 && M * (ld)smax > 0x1p50L) smax /= 4;
+  if (smax < 16) return "finer_grid_not_tried";
+  for (int64_t sc : { smax, smax / 4 + 1 }) {
+    Paths64 As = Ac, Bs = Bc; gen::scale_paths(As, sc); gen::scale_paths(Bs, sc);
+    const Point64 qs(qc.x * sc, qc.y * sc);
+    int err = 0;
+    Paths64 Ra = run_offset(As, delta_d * (double)sc, jt, et, ml, at * (double)sc, api, err);
+    Paths64 Rb = run_offset(Bs, delta_d * (double)sc, jt, et, ml, at * (double)sc, api, err);
+    if ((winding(Ra, qs) != 0) != (winding(Rb, qs) != 0)) return "reproduced_on_finer_grid";
+  }
+  return "isolated_not_reproduced_on_finer_grid";
+}
+
 static Case with_point(const Case& c, const Point64& q) { Case w = c; w.seti("qx", q.x); w.seti("qy", q.y); return w; }
 
 static void judge(Ctx& ctx, const Case& c, bool from_replay) {
@@ -405,6 +444,7 @@ static void judge(Ctx& ctx, const Case& c, bool from_replay) {
           ld d1 = min_dist_to_edges(R, q), d2 = min_dist_to_edges(Rrev, q);
           if (d1 > pa.t + 1.25L && d2 > pa.t + 1.25L) {
             std::vector<std::string> tags = { covered ? "covered_only_forward" : "covered_only_reversed" }; tags.insert(tags.end(), cfgtags.begin(), cfgtags.end());
+            tags.push_back(finer_grid_pair_tag(P, Prev, delta_d, jt, et, ml, at, api, q));
             ctx.violation("C07.direction", tags, with_point(c, q), "at " + ptstr(q) + " the result of the paths as given has winding " + std::to_string(W) + ", the result of the reversed paths is " + (cov2 ? "" : "not ") +
               "covering it; distances to the two result boundaries " + ldstr(d1) + " and " + ldstr(d2) + ", t " + ldstr(pa.t));
             return;
@@ -425,6 +465,7 @@ static void judge(Ctx& ctx, const Case& c, bool from_replay) {
             std::vector<std::string> tags = { covered ? "covered_only_in_joint_call" : "covered_only_alone" }; tags.insert(tags.end(), cfgtags.begin(), cfgtags.end());
             bool two_before = false; for (size_t j = 0; j < own; ++j) if (P[j].size() == 2) two_before = true;
             if (et == ET_JOINED && two_before && P[own].size() >= 3) tags.push_back("two_point_path_earlier_in_joined_group");
+            tags.push_back(finer_grid_pair_tag(P, Paths64(1, P[own]), delta_d, jt, et, ml, at, api, q));
             ctx.violation("C07.independence", tags, with_point(c, q), "at " + ptstr(q) + " the joint call (" + std::to_string(m) + " paths, pairwise farther apart than " + ldstr(sep) + ") has winding " + std::to_string(W) +
               " but path #" + std::to_string(own) + " (" + std::to_string(P[own].size()) + " points) offset alone has winding " + std::to_string(W2) + "; distances to the two result boundaries " + ldstr(d1) + " and " + ldstr(d2));
             return;
